@@ -3,6 +3,7 @@
 #![allow(unused)]
 #[macro_use]
 pub mod sym;
+pub mod c02;
 pub mod env;
 pub mod mcodec;
 pub mod c01;
@@ -20,6 +21,7 @@ mod replay_entry {
         match name.as_str() {
             "c18::increment_is_strict" => crate::c18::increment_is_strict(),
             "c18::two_increments" => crate::c18::two_increments(),
+            n if crate::c02::dispatch(n) => {}
             "c01::accepted_is_well_formed" => crate::c01::accepted_is_well_formed(),
             "c01::tamper_shape_00" => crate::c01::tamper_shape_00(),
             "c01::tamper_shape_01" => crate::c01::tamper_shape_01(),
